@@ -1285,6 +1285,9 @@ impl Prop for C05 {
             500
         }
     }
+    fn determinism_runs() -> u64 {
+        48
+    }
     fn rule() -> &'static str {
         "one evaluation = one simulated process history: 1..4 programs (seeded generator over all seven dialect settings, plus shipped sources under resources/tests) are compiled by a reference actor in canonical state, then by 1..8 perturbed actor threads whose operations (compile, failing compile at nine stages, name-counter jump, ambient integer-mode guard, re-entrant compile from read_new_file, reused allocator) are interleaved by the seeded scheduler at operation boundaries and at allocation-count preemption points, each thread with its own simulated hash entropy; every perturbed compile is compared with the reference (Ok/Err class, bytes, symbol entries with generated-name digits erased). Non-trivial run = at least one compared compile finished Ok for a program whose reference compile generated at least one fresh name (visible as a `_$_` entry in its symbol table, or as movement of the global name counter) (every perturbed compile differs from the reference at least in thread and hash entropy). Distinct = hash of (complete workload, event log) among non-trivial runs; coverage.distinct_program_perturbation_pairs additionally counts distinct (program text, perturbation vector) pairs."
     }
